@@ -154,6 +154,16 @@ func classifyNested(c *Ctx, in ssa.Instruction) (string, string) {
 		return "", "AllocInode acquires a number that does not come from the allocator"
 	}
 	// sorted loop: inside lockInodes' range loop (checked structurally by sortedLoopRule)
+	if V.lockInodes != nil && ownerOf(fn) == V.lockInodes {
+		lsc := scopesOf(V.lockInodes)
+		for _, sc := range lsc {
+			if sc.Fn == fn {
+				if top := topInstr(lsc, sc, in); top.Parent() == V.lockInodes && reachableFrom(top, top) {
+					return "sorted-loop", "acquisition inside lockInodes' loop over the sorted copy (see the sorted-loop obligations)"
+				}
+			}
+		}
+	}
 	if fn == V.lockInodes && reachableFrom(in, in) {
 		return "sorted-loop", "acquisition inside lockInodes' loop over the sorted copy (see the sorted-loop obligations)"
 	}
@@ -296,6 +306,28 @@ func sortedLoopRule(c *Ctx, id string) {
 			}
 		}
 	}
+	if ap, ok := S.(*ssa.Call); ok && !fresh {
+		// append(<empty>, param...) is a private copy too
+		if bi, isB := ap.Call.Value.(*ssa.Builtin); isB && bi.Name() == "append" && len(ap.Call.Args) == 2 {
+			_, isP := stripConv(ap.Call.Args[1]).(*ssa.Parameter)
+			empty := isNilConst(ap.Call.Args[0])
+			switch e := stripConv(ap.Call.Args[0]).(type) {
+			case *ssa.Slice:
+				if al, isA := e.X.(*ssa.Alloc); isA {
+					if at, isArr := derefType(al.Type()).Underlying().(*types.Array); isArr && at.Len() == 0 {
+						empty = true
+					}
+				}
+			case *ssa.MakeSlice:
+				if k, isk := constInt(e.Len); isk && k == 0 {
+					empty = true
+				}
+			}
+			if isP && empty && reachableFrom(ap, sortCall) {
+				fresh = true
+			}
+		}
+	}
 	R.Check(fresh, id, "nfs.lockInodes|private copy", P.Pos(sortCall.Pos()), "the slice sorted is a private copy of the caller's numbers", "make + copy", "the caller's slice is reordered (callers index the result by position) or the sorted slice is not the numbers")
 	// comparator: closure returning X[i] < X[j] with X the SAME slice S
 	lessOK, lessWhy := false, "comparator not recognised"
@@ -308,9 +340,14 @@ func sortedLoopRule(c *Ctx, id string) {
 				continue
 			}
 			bo, ok := r.Results[0].(*ssa.BinOp)
-			if !ok || bo.Op != token.LSS {
+			if !ok || (bo.Op != token.LSS && bo.Op != token.GTR) {
 				lessWhy = "comparator is not 'a < b'"
 				continue
+			}
+			p0, p1 := lf.Params[0], lf.Params[1]
+			if bo.Op == token.GTR {
+				// s[j] > s[i] is s[i] < s[j]
+				p0, p1 = p1, p0
 			}
 			elem := func(v ssa.Value, param *ssa.Parameter) (ssa.Value, bool) {
 				u, ok := v.(*ssa.UnOp)
@@ -337,8 +374,8 @@ func sortedLoopRule(c *Ctx, id string) {
 				}
 				return nil, false
 			}
-			bx, ok1 := elem(bo.X, lf.Params[0])
-			by, ok2 := elem(bo.Y, lf.Params[1])
+			bx, ok1 := elem(bo.X, p0)
+			by, ok2 := elem(bo.Y, p1)
 			if !ok1 || !ok2 {
 				lessWhy = "comparator does not compare element i with element j"
 				continue
@@ -364,31 +401,38 @@ func sortedLoopRule(c *Ctx, id string) {
 		}
 	}
 	R.Check(lessOK, id, "nfs.lockInodes|comparator on the sorted slice", P.Pos(sortCall.Pos()), "sort.Slice(s, less) with less(i,j) = s[i] < s[j] on the same s", lessWhy, lessWhy+": for three or more numbers two renames can take the same locks in opposite orders")
-	// the acquisition loop ranges over S after the sort
-	var acq ssa.Instruction
-	for _, call := range P.CallsIn(f, func(x *ssa.Function) bool { return V.Acquirers[x] }) {
-		acq = call
+	// the acquisition loop ranges over S after the sort (the acquisition may sit in a local closure or private helper)
+	var acq, acqTop ssa.Instruction
+	var acqSc Scope
+	fScopes := scopesOf(f)
+	for _, sc := range fScopes {
+		for _, call := range P.CallsIn(sc.Fn, func(x *ssa.Function) bool { return V.Acquirers[x] }) {
+			acq, acqSc = call, sc
+			acqTop = topInstr(fScopes, sc, call)
+		}
 	}
 	if acq == nil {
 		R.Fail(id, "nfs.lockInodes|acquisition loop", P.Pos(f.Pos()), "lockInodes acquires in a loop", "no acquisition call")
 		return
 	}
 	fromS := false
-	if u, ok := stripConv(argN(acq, 0)).(*ssa.UnOp); ok && u.Op == token.MUL {
+	if u, ok := stripConv(acqSc.S.resolve(stripConv(argN(acq, 0)))).(*ssa.UnOp); ok && u.Op == token.MUL {
 		if ia, ok := u.X.(*ssa.IndexAddr); ok {
 			fromS = stripConv(ia.X) == S
 		}
 	}
-	R.Check(fromS && reachableFrom(sortCall, acq) && reachableFrom(acq, acq), id, "nfs.lockInodes|acquires in sorted order", P.Pos(acq.Pos()), "the loop acquires the elements of the sorted copy, after the sort", "range over the sorted slice", "the acquisition loop does not follow the sorted copy")
+	R.Check(fromS && acqTop.Parent() == f && reachableFrom(sortCall, acqTop) && reachableFrom(acqTop, acqTop), id, "nfs.lockInodes|acquires in sorted order", P.Pos(acq.Pos()), "the loop acquires the elements of the sorted copy, after the sort", "range over the sorted slice", "the acquisition loop does not follow the sorted copy")
 	// duplicates: the acquisition is skipped for numbers the transaction owns
-	dup := guardedBy(f, acq.Block(), func(cd Cond) (bool, bool) {
-		if cd.Op != token.ILLEGAL {
+	dup := guardedUp(fScopes, acqSc, acq.Block(), func(sub Subst) func(Cond) (bool, bool) {
+		return func(cd Cond) (bool, bool) {
+			if cd.Op != token.ILLEGAL {
+				return false, false
+			}
+			if call, ok := cd.X.(*ssa.Call); ok && call.Call.StaticCallee() == V.OwnInum {
+				return true, false
+			}
 			return false, false
 		}
-		if call, ok := cd.X.(*ssa.Call); ok && call.Call.StaticCallee() == V.OwnInum {
-			return true, false
-		}
-		return false, false
 	})
 	R.Check(dup, id, "nfs.lockInodes|duplicates skipped", P.Pos(acq.Pos()), "a number the transaction already owns is not acquired again (OwnInum guard)", "acquisition on the !OwnInum edge", "duplicate numbers make the request wait for its own lock for ever (e.g. RENAME A/B -> B/c asks for [A,B,B,c])")
 	// failure inside the loop aborts (releases what was taken) and returns nil
